@@ -816,6 +816,25 @@ class Body:
             p = o.get("c") or o.get("m")
             if not p["p"]:
                 return self.locals[p["l"]]["ty"]
+            # field of a tuple local: `match (a.is_zero(), b.is_zero()) { (true, false) => .. }`
+            ty = self.locals[p["l"]]["ty"]
+            es = [e for e in p["p"] if "d" not in e]
+            if len(es) == 1 and "f" in es[0] and ty.startswith("(") and ty.endswith(")"):
+                parts, depth, cur = [], 0, ""
+                for ch in ty[1:-1]:
+                    if ch in "<([":
+                        depth += 1
+                    elif ch in ">)]":
+                        depth -= 1
+                    if ch == "," and depth == 0:
+                        parts.append(cur.strip())
+                        cur = ""
+                    else:
+                        cur += ch
+                if cur.strip():
+                    parts.append(cur.strip())
+                if es[0]["f"] < len(parts):
+                    return parts[es[0]["f"]]
             return "?"
         return o["k"]["ty"]
 
@@ -844,7 +863,7 @@ class Body:
                         out.add(conj)
             else:
                 # a non-constant arm (`None => true, Some(s) => t > *s`): that arm's guard and the arm's own condition
-                inner = ("bool", t, atom[2])
+                inner = ("bool", t, atom[2], None)
                 sub = self._lift_bool_phi(inner, _stack) if t[0] == "phi" else None
                 for conj in self.guard(bi, _stack):
                     if sub is None:
@@ -936,8 +955,10 @@ def _consistent(conj):
             seen[k] = (seen[k] & a[2]) if k in seen else a[2]
             if not seen[k]:
                 return False
-        elif a[0] == "bool":
-            if ("bool", a[1], not a[2]) in conj:
+    pol = {}
+    for a in conj:
+        if a[0] == "bool":
+            if pol.setdefault(a[1], a[2]) != a[2]:
                 return False
     return True
 
